@@ -46,10 +46,12 @@ func (f *freeCfg) decide(s *scenario, op string) answer {
 			return answer{r: "lost"}
 		case x < 47:
 			return answer{r: "active"}
-		case x < 93:
-			return answer{r: "notfound"}
+		case x < 88:
+			return answer{r: "notfound", p: int64(1 + f.intn(3))}
+		case x < 94:
+			return answer{r: "errbid", p: int64(1 + f.intn(4))} // lookup fails, a bid of ours exists on chain
 		}
-		return answer{r: "err"}
+		return answer{r: "err", p: int64(1 + f.intn(4))}
 	case "should":
 		if x < 85 {
 			return answer{r: "yes"}
